@@ -34,6 +34,13 @@ def isOk : Res α → Bool | ok _ => true | _ => false
 def isErr : Res α → Bool | err _ => true | _ => false
 def isPanic : Res α → Bool | panic => true | _ => false
 
+@[simp] theorem isPanic_ok (a : α) : (ok a : Res α).isPanic = false := rfl
+@[simp] theorem isPanic_err (k : EK) : (err k : Res α).isPanic = false := rfl
+@[simp] theorem isPanic_panic : (panic : Res α).isPanic = true := rfl
+theorem isPanic_ite (c : Prop) [Decidable c] (a b : Res α) :
+    (if c then a else b).isPanic = if c then a.isPanic else b.isPanic := by split <;> rfl
+theorem isPanic_false_iff {x : Res α} : x.isPanic = false ↔ x ≠ panic := by cases x <;> simp [isPanic]
+
 @[simp] theorem bind_ok (a : α) (f : α → Res β) : (ok a >>= f) = f a := rfl
 @[simp] theorem bind_err (k : EK) (f : α → Res β) : (err k >>= f) = err k := rfl
 @[simp] theorem bind_panic (f : α → Res β) : ((panic : Res α) >>= f) = panic := rfl
